@@ -325,6 +325,108 @@ fn local_threads(res: &mut PartResult) {
     res.sample(json!({"program_A": progs[27], "program_B": progs[5]}));
 }
 
+/// Two debugging recorders used through local scopes on ONE thread: every program of <= 2 top-level scopes, each with
+/// recorder 1 or 2, entered through `with_local_recorder` or a `set_default_local_recorder` guard, left normally or by a
+/// caught panic, optionally with one nested scope (recorder, exit kind) inside, an emission inside every scope level
+/// (before and after the nested scope) and one outside after every top-level scope. Each recorder's snapshot must list
+/// exactly the emissions made while it was the innermost local recorder — never another recorder's.
+fn scopes_part(res: &mut PartResult) {
+    res.engine = "E3 all programs of local scopes over two DebuggingRecorders on one thread (normal and panicking exits, nesting)".into();
+    vseq::quiet_panics();
+    #[derive(Clone, Copy, Debug)]
+    struct Seg {
+        r: usize,
+        guard: bool,
+        panic: bool,
+        inner: Option<(usize, bool)>,
+    }
+    let mut segs: Vec<Seg> = Vec::new();
+    for r in 0..2 {
+        for guard in [false, true] {
+            for panic in [false, true] {
+                segs.push(Seg { r, guard, panic, inner: None });
+                for ir in 0..2 {
+                    for ip in [false, true] {
+                        segs.push(Seg { r, guard, panic, inner: Some((ir, ip)) });
+                    }
+                }
+            }
+        }
+    }
+    let mut progs: Vec<Vec<Seg>> = segs.iter().map(|s| vec![*s]).collect();
+    for a in &segs {
+        for b in &segs {
+            progs.push(vec![*a, *b]);
+        }
+    }
+    let mut states = vseq::States::new();
+    for prog in &progs {
+        res.executions += 1;
+        res.transitions += prog.len() as u64 * 4;
+        let p2 = prog.clone();
+        let (got, want) = std::thread::spawn(move || {
+            let recs = [DebuggingRecorder::new(), DebuggingRecorder::new()];
+            let snaps = [recs[0].snapshotter(), recs[1].snapshotter()];
+            let id = std::cell::Cell::new(0usize);
+            let want: std::cell::RefCell<[Vec<String>; 2]> = std::cell::RefCell::new([vec![], vec![]]);
+            let emit = |to: Option<usize>| {
+                let n = format!("e{}", id.get());
+                id.set(id.get() + 1);
+                metrics::counter!(n.clone()).increment(1);
+                if let Some(r) = to {
+                    want.borrow_mut()[r].push(n);
+                }
+            };
+            for seg in &p2 {
+                let body = || {
+                    emit(Some(seg.r));
+                    if let Some((ir, ip)) = seg.inner {
+                        let _ = std::panic::catch_unwind(std::panic::AssertUnwindSafe(|| {
+                            metrics::with_local_recorder(&recs[ir], || {
+                                emit(Some(ir));
+                                if ip {
+                                    std::panic::resume_unwind(Box::new("inner scope left by a panic"));
+                                }
+                            })
+                        }));
+                        emit(Some(seg.r));
+                    }
+                    if seg.panic {
+                        std::panic::resume_unwind(Box::new("scope left by a panic"));
+                    }
+                };
+                let _ = std::panic::catch_unwind(std::panic::AssertUnwindSafe(|| {
+                    if seg.guard {
+                        let _g = metrics::set_default_local_recorder(&recs[seg.r]);
+                        body();
+                    } else {
+                        metrics::with_local_recorder(&recs[seg.r], body);
+                    }
+                }));
+                // outside every scope: nobody's
+                emit(None);
+            }
+            let got: Vec<Vec<String>> = snaps.iter().map(|s| {
+                let mut v: Vec<String> = s.snapshot().into_vec().into_iter().map(|(k, _, _, _)| k.key().name().to_string()).collect();
+                v.sort();
+                v
+            }).collect();
+            let mut w: Vec<Vec<String>> = want.borrow().iter().cloned().collect();
+            for x in w.iter_mut() {
+                x.sort();
+            }
+            (got, w)
+        }).join().unwrap();
+        states.add(&got);
+        if got != want {
+            res.violation("local-recorder-shows-other-threads-metrics", format!("program {:?} on one thread: the two recorders' snapshots list {:?}, but the emissions made while each was the innermost local recorder are {:?}", prog, got, want), json!({"prog": format!("{:?}", prog)}));
+        }
+    }
+    res.states = states.len();
+    res.distinct_outcomes = states.len();
+    res.sample(json!({"program": "with_local_recorder(r1, || { emit; with_local_recorder(r2, || { emit; panic }); emit }); emit; guard(r2) { emit }; emit", "expected": "r1: e0, e2; r2: e1, e4; e3 and e5 nowhere"}));
+}
+
 // ------------------------------------------------------------------ E1
 struct S {
     rec: DebuggingRecorder,
@@ -466,7 +568,7 @@ fn e1(ctx: &Ctx, res: &mut PartResult, pb: usize) {
 }
 
 fn parts(ctx: &Ctx) -> Vec<PartSpec> {
-    let mut v = vec![PartSpec::new("e3-local-threads", json!({"local": true}))];
+    let mut v = vec![PartSpec::new("e3-local-threads", json!({"local": true})), PartSpec::new("e3-local-scopes-one-thread", json!({"scopes": true}))];
     if ctx.quick() {
         for f in 0..alphabet().len() {
             v.push(PartSpec::new(&format!("e3-d5-first{}", f), json!({"depth": 5, "first": f})).budget(150.0));
@@ -489,7 +591,9 @@ fn parts(ctx: &Ctx) -> Vec<PartSpec> {
 
 fn run(ctx: &Ctx, spec: &PartSpec) -> PartResult {
     let mut res = PartResult::new(&spec.name, "");
-    if spec.arg["local"].as_bool() == Some(true) {
+    if spec.arg["scopes"].as_bool() == Some(true) {
+        scopes_part(&mut res);
+    } else if spec.arg["local"].as_bool() == Some(true) {
         local_threads(&mut res);
     } else if let Some(pb) = spec.arg["e1"].as_u64() {
         if spec.arg["snaps"].as_bool() == Some(true) {
@@ -509,7 +613,7 @@ fn main() {
     driver::main(CheckDef {
         prop: "C19",
         level: "model_checking",
-        rule: "E3: every sequence of depth <= 4 (thorough 6) over {63, 64, 65, 130 records into one histogram, one record, 65 records into another, snapshot} (windows around the 64-slot block size of the bucket); every sequence of the stated depth over 19 operations (describe with two different units / without unit and four texts, register of 4 keys incl. an equal key built differently and the same name under three kinds, counter/gauge/histogram updates, snapshot) on a fresh real DebuggingRecorder, plus a final snapshot; every snapshot compared with a reference (first-registration order, described-only metrics absent, latest description, unit kept, histogram values since the previous snapshot); all pairs of 3-step macro programs on two threads with local recorders; E1: all SC interleavings of a recording thread with a snapshotting thread; distinct = distinct snapshots",
+        rule: "E3: every sequence of depth <= 4 (thorough 6) over {63, 64, 65, 130 records into one histogram, one record, 65 records into another, snapshot} (windows around the 64-slot block size of the bucket); every sequence of the stated depth over 19 operations (describe with two different units / without unit and four texts, register of 4 keys incl. an equal key built differently and the same name under three kinds, counter/gauge/histogram updates, snapshot) on a fresh real DebuggingRecorder, plus a final snapshot; every snapshot compared with a reference (first-registration order, described-only metrics absent, latest description, unit kept, histogram values since the previous snapshot); all pairs of 3-step macro programs on two threads with local recorders; all programs of <= 2 local scopes (closure or guard, left normally or by a caught panic, optionally one nested scope) over two recorders on one thread, each recorder's snapshot listing exactly the emissions made while it was innermost; E1: all SC interleavings of a recording thread with a snapshotting thread; distinct = distinct snapshots",
         assumptions: &["E1: sequential consistency, one registry shard"],
         parts,
         run,
